@@ -21,6 +21,7 @@ func extraAgents(s *Sim) []Agent {
 	add("commit", &CommitAgent{newBase(s, "commit")})
 	add("oraclechaos", &OracleChaosAgent{newBase(s, "oraclechaos")})
 	add("govchaos", &GovChaosAgent{baseAgent: newBase(s, "govchaos")})
+	add("govedge", &GovEdgeAgent{baseAgent: newBase(s, "govedge")})
 	add("incentive", &IncentiveAgent{newBase(s, "incentive")})
 	add("orders", &OrdersAgent{newBase(s, "orders")})
 	add("executor", &ExecutorAgent{baseAgent: newBase(s, "executor")})
